@@ -108,7 +108,7 @@ PROPS['C06'] = dict(
     design='DESIGN.md 3/C06',
     technique='contract-based deductive verification (Verus) of the directive-free emission arms (copy exactly the bytes of their own leaf, identity origin) plus once-only obligations',
     level_text='Deductive proof that the NotDirective, Comment, StringLiteral and EscapedIdentifier arms append exactly the bytes of the locate they copy and record the identical source range, and that kept-directive arms suppress their trailing white space so nothing is emitted twice.',
-    level_note=ARMS_NOTE + ' Two arms genuinely emit trailing trivia twice (known findings K3, K4, frozen by golden files). Partial: the fixed-point clause is not decided; of the rejection conditions, position-wise acceptance of directive-free text by the run production is decided by a two-byte look-ahead analysis (gvc.pptotal), unterminated strings/comments are not.',
+    level_note=ARMS_NOTE + ' Two arms genuinely emit trailing trivia twice (known findings K3, K4, frozen by golden files). Partial: the fixed-point clause is not decided; of the rejection conditions, position-wise acceptance of directive-free text by the run production is decided by a two-byte look-ahead analysis (gvc.pptotal), the lexers of comments, strings and escaped identifiers are only covered by a BOUNDED stand-in (every text over an 8-symbol alphabet up to 5 bytes, 7 in the thorough tier, through the real preprocess_str; labelled bounded, not counted as proved).',
     not_covered=['fixed point of successful runs', 'that a terminated string / comment / escaped identifier is always accepted by its own production'],
 )
 PROPS['C10'] = dict(
@@ -204,7 +204,7 @@ KANI = dict(module='vx.kanieng', tier='thorough')
 PROPS['C03']['engines'] = [KANI]
 PROPS['C18']['engines'] = [REPLAY]
 PROPS['C04']['engines'] = [dict(module='gvc.engine', args=dict(analyses=('frame',))), REPLAY]
-PROPS['C06']['engines'] = [dict(module='gvc.engine', args=dict(analyses=('pptotal', 'faithful'))), REPLAY]
+PROPS['C06']['engines'] = [dict(module='gvc.engine', args=dict(analyses=('pptotal', 'faithful'))), dict(module='vx.boundeng'), REPLAY]
 
 NOT_APPLICABLE = {
     'C02': 'the oracle is the set of Annex A sentences and their production labels; a contract able to state it would restate the 1.3k-production grammar, and PEG ordered choice over it is not a per-function property (DESIGN.md 4)',
